@@ -246,7 +246,40 @@ def law_neg_history(args):
     return None
 
 
+def law_alias(args):
+    """products are new values: changing an operand (or the product) afterwards must not change the other"""
+    t1, t2 = args
+    for left_identity in (False, True):
+        t, e = T(t1), Transform(Position(0, 0), F)
+        prod = (e * t) if left_identity else (t * e)
+        before = T(t1)
+        if prod != before:
+            return 'composing with the identity changes the value'
+        prod.position = P(t2[0])
+        prod.orientation = ORI[t2[1]]
+        if t != before:
+            return 'changing the product of a pose with the identity changed the pose itself (aliased result)'
+        t, e = T(t1), Transform(Position(0, 0), F)
+        prod = (e * t) if left_identity else (t * e)
+        t.position = P(t2[0])
+        if prod != before:
+            return 'changing a pose changed an earlier product of it with the identity (aliased result)'
+    a, b = T(t1), T(t2)
+    prod = a * b
+    val = T(t1) * T(t2)
+    a.position = P((7, 7))
+    b.orientation = ORI['B'] if t2[1] != 'B' else ORI['F']
+    if prod != val:
+        return 'changing an operand changed an earlier product (aliased result)'
+    p = P(t2[0])
+    q = T(t1) * p
+    if q is p and T(t1) != Transform(Position(0, 0), F):
+        return 'a transformed position is the operand object itself'
+    return None
+
+
 LAWS = {
+    'alias': law_alias,
     'neg_history': law_neg_history,
     'orient': law_orient,
     'cyclic': law_cyclic,
@@ -333,6 +366,7 @@ def run(rep, tier, seed):
     jobs.append(('action2', [[a, b, p] for a in HEADINGS for b in HEADINGS for p in positions]))
     jobs.append(('transform1', [[t] for t in tx_ext]))
     jobs.append(('neg_history', [[a, b] for a in transforms for b in transforms[::7]]))
+    jobs.append(('alias', [[a, b] for a in transforms for b in transforms[::7]]))
     for t1 in transforms:
         jobs.append(('transform3', _T3(t1, transforms)))
     areas = [
